@@ -27,14 +27,50 @@ def run_trace_job(pid, job, tier, seed):
     return stats, res, shards
 
 
+def root_records(kind, seed, limit):
+    """Root positions for Mode A as Shredder-FEN records."""
+    roots = []
+    if kind.startswith("curated"):
+        roots = [l.strip() for l in open(os.path.join(vlib.VERIF, "roots", "curated.sfen")) if l.strip() and not l.startswith("#")]
+        extra = os.path.join(vlib.VERIF, "roots", "synth.sfen")
+        if os.path.exists(extra):
+            roots += [l.strip() for l in open(extra) if l.strip() and not l.startswith("#")]
+    elif kind.startswith("starts"):
+        roots = [l.strip() for l in open(os.path.join(vlib.VERIF, "roots", "chess960_start_positions.sfens")) if l.strip()]
+    elif kind.startswith("corpus"):
+        roots = [l.strip() for l in open(os.path.join(vlib.VERIF, "roots", "valid.sfens")) if l.strip()]
+    if limit and len(roots) > limit:
+        import random
+        rnd = random.Random(seed)
+        roots = rnd.sample(roots, limit)
+    return roots
+
+
 def run_model_job(pid, job, tier, seed):
     wd = workdir(pid, job["name"])
     p = job["params"][tier]
     env = {k: str(v) for k, v in p.get("env", {}).items()}
     env["SEED"] = str(seed)
+    if "mc" in p:
+        mc = p["mc"]
+        roots = root_records(mc.get("roots", "curated"), seed, mc.get("max_roots"))
+        cfgj = {"roots": [[ord(c) for c in r] for r in roots], "depth": mc.get("depth", 1), "setters": mc.get("setters", 0), "sweep": mc.get("sweep", 0)}
+        path = os.path.join(wd, "mccfg.json")
+        json.dump(cfgj, open(path, "w"))
+        env["MCCFG"] = path
+        p = dict(p)
+        p["bounds"] = "%d roots (%s), depth %d (levels), is_legal sweep level %d, clock setters %s" % (len(roots), mc.get("roots", "curated"), cfgj["depth"], cfgj["sweep"], "on" if cfgj["setters"] else "off")
+        job["params"][tier] = p
+    if "invariants" in job:
+        lines = ["SPECIFICATION Spec"] + ["CONSTRAINT " + c for c in job.get("constraints", [])]
+        lines += ["INVARIANT " + i for i in job["invariants"]] + ["PROPERTY " + q for q in job.get("properties", [])] + ["CHECK_DEADLOCK FALSE"]
+        cfgpath = os.path.join(wd, job["name"] + ".cfg")
+        open(cfgpath, "w").write("\n".join(lines) + "\n")
+        job = dict(job)
+        job["cfg_path"] = cfgpath
     if "trace_from" in job:
         env["TRACE"] = os.path.join(vlib.WORK, pid, job["trace_from"], "tr.0.ndjson")
-    out = run_tlc_model(job["spec"], job.get("cfg", job["spec"]), wd, workers=p.get("workers", 8), timeout=p.get("timeout", 1800),
+    out = run_tlc_model(job["spec"], job.get("cfg_path") or job.get("cfg", job["spec"]), wd, workers=p.get("workers", 8), timeout=p.get("timeout", 1800),
                         xmx=p.get("xmx", "6g"), simulate=p.get("simulate"), env_extra=env, extra=p.get("extra"))
     log("[model] %s: %d states generated, %d distinct, %.1fs%s" % (job["name"], out["states"], out["distinct"], out["wall_s"],
                                                                  (", VIOLATED " + str(out["violated"])) if out["violated"] else ""))
